@@ -5,7 +5,7 @@ src, rnd = sys.argv[1], int(sys.argv[2])
 HERE = os.path.abspath(os.path.join(os.path.dirname(__file__), ".."))
 have = sorted(os.listdir(os.path.join(HERE, "seeded")))
 taken = {json.load(open(os.path.join(HERE, "seeded", d, "meta.json"))).get("worktree_literal") for d in have}
-n = max(int(d[1:3]) for d in have) + 1
+n = max(int(re.match(r'S(\d+)-', d).group(1)) for d in have) + 1
 for w in sorted(os.listdir(src)):
     if not w.startswith("wt_"):
         continue
